@@ -191,6 +191,24 @@ def run_case(key, twin=False):
     if kind == 'move':
         d3, _, _ = E.run(ctx, lambda x: (lambda o: (o.I @ o).reduce().mv(x))(mk()), [('x', ins, 'sym')])
         res.append(('rule I@op', dec.decide(ctx, pairs(d3, x, ctx))))
+        # the same move applied twice is in general NOT the identity: reduce() must not treat it as an inverse pair
+        from furax import MoveAxisOperator
+        try:
+            MoveAxisOperator(key[2], key[3], in_structure=outs).out_structure()
+            twice = True
+        except Exception:  # noqa: BLE001
+            twice = False
+        if twice:
+            def two(red):
+                def f(x):
+                    o = mk()
+                    o2 = MoveAxisOperator(key[2], key[3], in_structure=outs)
+                    c = o2 @ o
+                    return (c.reduce() if red else c).mv(x)
+                return f
+            e1, _, _ = E.run(ctx, two(False), [('x', ins, 'sym')])
+            e2, _, _ = E.run(ctx, two(True), [('x', ins, 'sym')])
+            res.append(('same move twice', dec.decide(ctx, pairs(e1, e2, ctx))))
     common = dict(prims=sorted(ctx.prims), **dec.stats())
     nob = common.pop('obligations')
     bad = [(n, r) for n, r in res if r.status != 'unsat']
@@ -235,6 +253,10 @@ def replay(key, model, info):
         close, msg = trees_close((op @ op.T).reduce().mv(y), y)
     elif kind == 'rule I@op':
         close, msg = trees_close((op.I @ op).reduce().mv(x), x)
+    elif kind == 'same move twice':
+        from furax import MoveAxisOperator
+        o2 = MoveAxisOperator(key[2], key[3], in_structure=op.out_structure())
+        close, msg = trees_close((o2 @ op).reduce().mv(x), o2.mv(op.mv(x)))
     else:
         return False, f'unknown kind {kind}'
     return (not close), f'{kind} for {key}: {msg}'
